@@ -26,7 +26,7 @@ func Registry() []*Spec {
 		Quick: map[string]int{"N": 4}, Thorough: map[string]int{"N": 5},
 		Covers: []string{"accepted", "rejected"}, UnitDepth: 8, Asserts: []string{"no-panic", "no-runtime-fault", "panic-carries-error", "parse-agrees-with-must", "terminates"},
 		AllowUnsupported: []string{"formatted (fmt) string", "(reflect.Value).", "regexp.Compile", "strconv.FormatFloat of a symbolic float"},
-		Note: "JSONPath / filter text: every byte string of <= N bytes and 27 path and filter skeletons with free symbolic bytes through jp.MustParse (a panic must carry an error, never a runtime fault) and jp.Parse (never panics, agrees with MustParse); an expression that parsed is printed and evaluated with Get, First, Has, Locate on a fixed document without a panic; regular expression literals are outside (regexp is not executed)"})
+		Note: "JSONPath / filter text: every byte string of <= N bytes and 37 path, filter and proc skeletons with free symbolic bytes through jp.MustParse (a panic must carry an error, never a runtime fault) and jp.Parse (never panics, agrees with MustParse); an expression that parsed is printed and evaluated with Get, First, Has, Locate on a fixed document without a panic; regular expression literals are outside (regexp is not executed)"})
 	// ---- C03: all front-ends agree, however the input is chunked
 	add(Spec{Property: "C03", Name: "VerifC03_Chunked", Pkg: "asm",
 		Quick: map[string]int{"N": 3}, Thorough: map[string]int{"N": 4, "ALLCOMP": 1},
@@ -104,7 +104,7 @@ func Registry() []*Spec {
 	add(Spec{Property: "C04", Name: "VerifC04_Sort", Pkg: "asm",
 		Quick: map[string]int{}, Thorough: map[string]int{},
 		Covers: []string{"done"}, UnitDepth: 3,
-		Note: "Sort: three distinct symbolic keys (<= 2 bytes) in every map iteration order give the same text, keys ascending"})
+		Note: "Sort: three distinct symbolic one-byte keys in every map iteration order give the same text, keys ascending, for in-memory JSON and streamed Write under tight / Indent 2 / Tab"})
 	prettySpec := Spec{Name: "VerifPretty", Pkg: "asm",
 		Quick: map[string]int{"PKINDS": 2, "NW": 3}, Thorough: map[string]int{"PKINDS": 4, "NEG": 1},
 		UnitDepth: 5,
@@ -180,8 +180,8 @@ func Registry() []*Spec {
 	// ---- C08: sequential ownership lemma (partial)
 	add(Spec{Property: "C08", Name: "VerifC08_Ownership", Pkg: "asm",
 		Quick: map[string]int{}, Thorough: map[string]int{},
-		Covers: []string{"done"}, UnitDepth: 3,
+		Covers: []string{"done"}, UnitDepth: 3, MaxSteps: 40_000_000,
 		AllowUnsupported: []string{"(reflect.Value).", "reflect."},
-		Note: "SEQUENTIAL sufficient condition only (no interleavings are explored): two consecutive calls of 12 package-level / shared-expression APIs on private symbolic data, the second call reusing the pooled instance of the first (sync.Pool stub: LIFO): the first result is not altered, the results share no storage (heap identity in the executor, pointer identity natively), Generify/Decompose results share nothing with their input, a shared jp.Expr is unchanged"})
+		Note: "SEQUENTIAL sufficient condition only (no interleavings are explored): two consecutive calls of 14 package-level / shared-expression APIs on private symbolic data (two of them with 70 KiB outputs so that the pooled buffer grows), the second call reusing the pooled instance of the first (sync.Pool stub: LIFO): the first result is not altered, the results share no storage (heap identity in the executor, pointer identity natively), Generify/Decompose results share nothing with their input, a shared jp.Expr is unchanged"})
 	return r
 }
